@@ -35,7 +35,7 @@ BT = rf.BondType
 BTYPES = [BT.SINGLE, BT.DOUBLE, BT.TRIPLE, BT.QUADRUPLE, BT.AROMATIC, BT.DATIVE, BT.ZERO, BT.OTHER, BT.UNSPECIFIED]
 BKINDS = ['single', 'double', 'triple', 'quadruple', 'ring', 'nonring', 'aromatic', 'any', 'strong', 'partial']
 BOUNDS = {
-    'quick': 'each evaluator on fake atoms/bonds with symbolic attributes (radical count and charges: unbounded symbolic '
+    'quick': 'two-atom fragments read through the RDKit fakes (symbol and suffix per atom symbolic choices: each atom queried from its own text); each evaluator on fake atoms/bonds with symbolic attributes (radical count and charges: unbounded symbolic '
              'integers; <= 2 rings of size 3..8; <= 3 neighbours with symbolic match/constraint/bond-type), symbolic negation, '
              'operator and number; pipeline with 3 candidate embeddings and symbolic constraint outcomes; every constraint form '
              'of the grammar read from text with symbolic operator/digit/negation choice; whitespace holes of <= 2 filler '
@@ -587,10 +587,6 @@ def h_translate_atoms(d: bool):
     zmap = {'C': 6, 'O': 8, 'N': 7}
     for idx, (sy, sf) in enumerate(((s1, f1), (s2, f2))):
         atom = q.mol.atoms[idx]
-        desc = [x if not isinstance(x, tuple) or x[0] is not None else x[1] for x in atom.desc]
-        flat = []
-        for x in atom.desc:
-            flat.append(x[1] if (isinstance(x, tuple) and len(x) == 2 and isinstance(x[1], list)) else x)
         kinds = []
         for x in atom.desc:
             if isinstance(x, tuple) and x and x[0] in ('AtomNumEquals', 'FormalChargeEquals', 'AtomNumGreater', 'TotalValenceEquals'):
